@@ -120,7 +120,7 @@ Proof.
   unfold wfb. intros H.
   apply andb_prop in H. destruct H as [H Hne]. apply andb_prop in H. destruct H as [H _].
   apply andb_prop in H. destruct H as [H Hi]. apply andb_prop in H. destruct H as [H Hf].
-  apply andb_prop in H. destruct H as [Ho _].
+  apply andb_prop in H. destruct H as [Ho Hnd].
   constructor.
   - apply nodupN_NoDup. assumption.
   - intros v Hin. apply memN_false. apply negb_true_iff. exact (forallb_In _ _ v Hf Hin).
